@@ -86,7 +86,7 @@ func (k Keeper) CalculateReward(ctx sdk.Context, addr sdk.AccAddress, id uint64)
 			// Voter info exists for this past dispute
 			addrReporterPower = addrReporterPower.Add(pastVoterInfo.ReporterPower)
 			addrTokenholderPower = addrTokenholderPower.Add(pastVoterInfo.TokenholderPower)
-			userTips, err := k.GetUserTotalTips(ctx, addr, pastId)
+			userTips, err := k.GetUserTotalTips(ctx, addr, dispute.BlockNumber)
 			if err != nil {
 				return math.Int{}, err
 			}
